@@ -157,6 +157,21 @@ def check(ctx):
                 for keep in (True, False):
                     reqs.append([Sym("c13_relatives"), [list(e) for e in E], desc, None if cutoff is None else [cutoff], keep, starts])
                     meta.append(("relatives", ([list(e) for e in E], desc, cutoff, keep, starts), feats + ["cutoff" if cutoff is not None else "uncut", "keep" if keep else "nokeep", "desc" if desc else "anc"]))
+    # deep trees first: a chain of 14 nodes and a comb of depth 12 (walks and paths longer than nine steps)
+    deep = []
+    chain = list(range(100, 114)); deep.append((chain, [(chain[i], chain[i + 1]) for i in range(len(chain) - 1)], ["deep-chain"]))
+    spine = list(range(200, 212)); teeth = list(range(300, 312))
+    deep.append((spine + teeth, [(spine[i], spine[i + 1]) for i in range(len(spine) - 1)] + [(spine[i], teeth[i]) for i in range(len(spine))], ["deep-comb"]))
+    for ids, E, feats in deep:
+        E = list(E); rng.shuffle(E)
+        for keep in (True, False):
+            reqs.append([Sym("c13_relatives"), [list(e) for e in E], True, None, keep, [ids[0]]])
+            meta.append(("relatives", ([list(e) for e in E], True, None, keep, [ids[0]]), feats + ["uncut", "keep" if keep else "nokeep", "desc"]))
+        names = {i: "U%d" % i for i in ids}; names[ids[0]] = "Root%d" % ids[0]
+        tn = sorted(RT)[0]
+        refs = [[a, b, RT[tn]] for a, b in E]
+        reqs.append([Sym("c13_paths"), [[i, names[i]] for i in sorted(names)], [[r[0], r[1]] for r in refs], ids[0]])
+        meta.append(("paths", (sorted(names.items()), refs, ids[0], [tn]), feats))
     for _ in range(40 if ctx.quick() else 600):
         ids, E, feats = random_dag(rng, 8)
         names = {i: rng.choice(["A", "B", "Motor", "Tank", "x/y", "é", "N%d" % i]) + (str(i) if rng.random() < 0.8 else "") for i in ids}
